@@ -78,7 +78,7 @@ prop("C19",
      mode="unrolled m in {2,3}, K up to 4, N up to 4; index sets enumerated; all values symbolic",
      assumptions=[A_SOLVE],
      trusted_base=["z3 5.1.0", "cvc5 1.0.3", "alpha_k is the optimum C17 defines (upper bound + attained)"],
-     not_decided=["the hypervolume clause (botorch Hypervolume is external; a fact about a monotone set function, not about VOPy code)",
+     not_decided=["HV(true front) >= HV(predicted subset) itself (a fact about botorch's monotone set function; decided here: both fronts are measured in the cone's facet coordinates against the same reference point)",
                   "numerical correctness of cvxpy inside is_covered"])
 
 prop("C20",
@@ -194,10 +194,14 @@ DEPENDS = {
     # the region built from the scaling: scale x predictive std / scale-radius ellipsoid
     "C04": [(r"C14/(Rect|Ell)\.update\[", r".")],
     # step composition uses the phases' monotonicity and exception-freedom
-    "C06": [(r"C0[23]/", r"^mono/|^no-raise|^implicit"), (r"C04/.*\.modeling$", r".")],
+    "C06": [(r"C0[23]/", r"^mono/|^no-raise|^implicit"), (r"C04/.*\.modeling$", r"."),
+            # "each step completes without error" for either confidence type and any polyhedral order of matching dimension
+            (r"C(09|10|11)/(Rect|Ell)\.", r"^no-raise|^implicit|^raises")],
     # which designs are sampled and what reaches the model: the evaluating() bodies
     "C07": [(r"C06/.*\.(evaluating|evaluate_refine)$", r".")],
     "C08": [(r"C17/ConeTheta2D\.beta", r"."), (r"C13/get_pareto_set\[", r"."), (r"C12/dominates\[", r".")],
+    # "the pessimistic Pareto set used by VOGP and eps-PAL is exactly the set of active designs no other active design pessimistically dominates"
+    "C11": [(r"C02/.*\.compute_pessimistic_set$", r".")],
     "C13": [(r"C12/(dominates|is_inside)", r".")],
     "C14": [(r"C15/.*\.predict\[", r".")],
     "C18": [(r"C03/VOGP_AD\.epsiloncovering$", r"."), (r"C06/VOGP_AD\.evaluate_refine$", r".")],
